@@ -12,7 +12,8 @@ PROPS_MODULE = "OxyModel.Props.C14"
 AUDIT = "OxyModel/Audit/C14.lean"
 THEOREMS = ["C14.C14_rate_noninterference", "C14.C14_rate_noninterference_new", "C14.C14_evict_others_unchanged",
             "C14.C14_evict_others_unchanged_rates", "C14.C14_rate_noninterference_rates",
-            "C14.C14_within_capacity_no_eviction", "C14.C14_evict_min_only", "C14.C14_conn_noninterference"]
+            "C14.C14_within_capacity_no_eviction", "C14.C14_evict_min_only", "C14.C14_evict_min_only_rel", "C14.C14_heap_consistent",
+            "C14.C14_heap_pop_isMin", "C14.C14_evicted_restarts", "C14.C14_conn_noninterference"]
 RACE = False
 JOBS = 8
 RULE = ("scenario = interleaved history of 2-6 sources through one TokenLimiter (capacity below / at / above the number of sources) with, "
@@ -23,12 +24,15 @@ RULE = ("scenario = interleaved history of 2-6 sources through one TokenLimiter 
         "with equal expiries whose eviction choice is read back from the implementation and checked legal by the model; "
         "non-trivial = >= 2 sources, both a 200 and a refusal, and (over-capacity scenarios) at least one eviction")
 ASSUMPTIONS = [
-    "container/heap + priority_queue.go hand out an entry of minimal expiry: checked at every eviction of the run (unique victims through "
-    "TokenLimiter, tied victims through the bare TTLMap with the implementation's choice fed to the model), not verified",
-    "through TokenLimiter eviction victims are only exercised when the minimal expiry is unique (no hook to read the tracked keys); ties are "
-    "exercised on collections.TTLMap directly",
+    "container/heap + priority_queue.go are modelled (Model/Heap.lean: up/down/Push/Pop/Remove, Update = Remove+Push, index = position) and "
+    "proved to keep the heap order and to hand out a minimal element (C14_heap_pop_isMin); map and heap are proved consistent in every reachable "
+    "state (C14_heap_consistent), so C14_evict_min_only has no hypothesis on the victim. The model's heap is tied to the code differentially: "
+    "the driver follows its own heap, so every eviction of the run — including ties among equal expiries — must match the implementation's",
+    "the solo comparison through TokenLimiter is only generated when the minimal expiry is unique (the harness cannot read the tracked keys and "
+    "needs evict= to restart the victim's private limiter); tied evictions are exercised without solo and on collections.TTLMap directly",
     "request amounts non-negative, monotone clock, consumeRates / acquire / release atomic under their mutex (C09)",
-    "connection limiter: C04's model ConnLimit and its theorem conn_noninterference are cited",
+    "connection limiter: C04's model ConnLimit and its theorem conn_noninterference are cited; its sub-history `project` is state dependent "
+    "(coincides with the static per-source filter when ids are not reused while in flight, which the harness guarantees; no lemma states it)",
 ]
 TRUSTED = ["the per-source private limiters of the harness (solo=1) are fresh TokenLimiter instances with the same configuration"]
 
@@ -118,6 +122,21 @@ def _over(rng, n_ops, rates=None, cap=None, nsrc=None):
     return lines
 
 
+def _over_ties(rng, n_ops):
+    """more sources than capacity, many equal expiries, no solo column: which entry is forgotten is decided by the heap, and
+    the model carries the same heap"""
+    rates = rc.pick_rates(rng, rng.choice(["hyp", "hyp", "sub"]))
+    cap = rng.randint(1, 5)
+    nsrc = cap + rng.randint(1, 4)
+    ttl = rc.ttl_of(rates)
+    lines = ["cfg rate %s cap=%d" % (rc.fmt_rates(rates), cap)]
+    t = 0
+    for _ in range(n_ops):
+        t += rng.choice([0, 0, 0, 1, S // 3, S, 2 * S, ttl * S, (ttl - 1) * S])
+        lines.append("at %d req s%d %d" % (t, rng.randrange(nsrc), rng.choice([0, 1, 1, 2])))
+    return lines
+
+
 def _conn(rng, n_ops):
     """interleaved starts / finishes; a finishing handler often rewrites the header the extractor reads to the token of
     ANOTHER source that has a connection open (what proxy middlewares do to requests) — the release must still be booked
@@ -174,8 +193,10 @@ def gen(rng, tier):
             yield _within(rng, rng.randint(20, n_ops))
         elif style < 0.4:
             yield _plans(rng, rng.randint(12, n_ops))
-        elif style < 0.85:
+        elif style < 0.7:
             yield _over(rng, rng.randint(20, n_ops))
+        elif style < 0.85:
+            yield _over_ties(rng, rng.randint(20, n_ops))
         else:
             yield _conn(rng, rng.randint(10, 60))
 
@@ -493,8 +514,8 @@ MANIFEST = {
              "heap, exactly the entry of minimal expiry is forgotten, it starts afresh, every other entry is untouched), "
              "C14_conn_noninterference (cites C04's model). Tied to the code by running the real TokenLimiter next to one private "
              "TokenLimiter per source, the real ConnLimiter, and the real TTLMap with tied expiries, against the compiled model."),
-    "note": ("Trusted: Lean kernel; propext/Classical.choice/Quot.sound; hand-written model validated on generated scenarios only; that "
-             "container/heap hands out a minimal element is checked at every eviction of the run, not proved; through TokenLimiter only "
-             "unique-minimum evictions are exercised (ties on the bare TTLMap); atomicity of the critical sections is C09's."),
+    "note": ("Trusted: Lean kernel; propext/Classical.choice/Quot.sound; hand-written models (limiter, TTL map, container/heap as used by "
+             "priority_queue.go) validated on generated scenarios only — the heap is modelled and proved to yield a minimal entry, its fidelity "
+             "to container/heap (incl. tie-breaking) is differential; atomicity of the critical sections is C09's."),
     "technique": "Lean 4 proof (per-source simulation through the TTL map; relational eviction step) over executable model + differential correspondence with ratelimit.TokenLimiter, collections.TTLMap, connlimit.ConnLimiter",
 }
